@@ -178,6 +178,13 @@ F('len', '{c}.len()', M.count, fn='len')
 F('count', '{c}.count()', M.count)
 F('memorize', '{c}.memorize()', lambda c, pres: frozenset(c) if pres == 'set' else M.memorize(c), out='seq', pres_arg=True)
 F('memorize-twice', 'let({c}.memorize()) -> [$.toList(), $.toList()]', lambda c: [list(c), list(c)], fn='memorize', pipe=False)
+# two cursors over one memorized iterator alive at the same time, the later one overtaking the earlier one
+F('memorize-zip-skip', 'let({c}.memorize()) -> $.zip($.skip(1)).toList()',
+  lambda c: M.zip_(list(c), M.skip(list(c), 1)), fn='memorize', pipe=False, recv='noset')
+F('memorize-join-self', 'let({c}.memorize()) -> $.join($, true, [$1, $2]).toList()',
+  lambda c: [[x, y] for x in list(c) for y in list(c)], fn='memorize', pipe=False, recv='noset')
+F('memorize-len-then-list', 'let({c}.memorize()) -> [$.len(), $.toList(), $.len()]',
+  lambda c: [len(list(c)), list(c), len(list(c))], fn='memorize', pipe=False, recv='noset')
 F('sum', '{c}.sum()', M.sum_, fn='sum_')
 F('sum-initial', '{c}.sum({v})', M.sum_, fn='sum_', v='val')
 F('min', '{c}.min()', M.min_, fn='min_')
